@@ -130,8 +130,17 @@ namespace ValueFlow
     {
         if (valueType.pointer || value.isImpossible())
             setTokenValue(parent,std::move(value),settings);
-        else if (valueType.type == ValueType::Type::CHAR)
-            setTokenValue(parent, castValue(std::move(value), valueType.sign, settings.platform.char_bit), settings);
+        else if (valueType.type == ValueType::Type::CHAR) {
+            // plain char has the signedness of the platform
+            ValueType::Sign sign = valueType.sign;
+            if (sign == ValueType::Sign::UNKNOWN_SIGN) {
+                if (settings.platform.defaultSign == 's' || settings.platform.defaultSign == 'S')
+                    sign = ValueType::Sign::SIGNED;
+                else if (settings.platform.defaultSign == 'u' || settings.platform.defaultSign == 'U')
+                    sign = ValueType::Sign::UNSIGNED;
+            }
+            setTokenValue(parent, castValue(std::move(value), sign, settings.platform.char_bit), settings);
+        }
         else if (valueType.type == ValueType::Type::SHORT)
             setTokenValue(parent, castValue(std::move(value), valueType.sign, settings.platform.short_bit), settings);
         else if (valueType.type == ValueType::Type::INT)
